@@ -29,6 +29,7 @@ def parseShape (s : String) : Shape := Id.run do
       | "overwrite" => sh := { sh with overwrite := n != 0 }
       | "nochanges" => sh := { sh with nochanges := n != 0 }
       | "pend" => sh := { sh with pend := n }
+      | "realscp" => sh := { sh with realscp := n != 0 }
       | _ => pure ()
     | _ => pure ()
   return sh
@@ -75,7 +76,7 @@ def answer (line : String) : String :=
         plan := fun g => if g then planG else planE
         planIpt := fun g => if g then ig == "1" else ie == "1"
         compare := mode == "compare"
-        simulated := true
+        simulated := !sh.realscp
         fuel := fuel.toNat?.getD 50 }
       let s := runProg b env
       let prev : Status := if prevDiff == "1" then
